@@ -443,6 +443,12 @@ func (c *Checker) determinismSpot(p runPlan, n int) error {
 		a := runChild(ChildOpts{Build: b, Args: args, Env: append([]string{"GOMAXPROCS=1"}, p.Env...)})
 		d := runChild(ChildOpts{Build: b, Args: args, Env: append([]string{"GOMAXPROCS=8"}, p.Env...)})
 		c.agg.DetPairs++
+		if extHandoffs(a)+extHandoffs(d) > 0 {
+			// a task blocked in an operation the simulator does not schedule (channel, real lock) and the token was
+			// taken from it on a wall-clock basis: such a run is timing-dependent by construction
+			c.note(fmt.Sprintf("NOTE run %d of %s: the code under test blocks in operations the simulator does not schedule; the run is timing-dependent and not compared", i, p.Label))
+			continue
+		}
 		if ja, jd := journalKey(a), journalKey(d); ja != jd {
 			c.agg.DetMismatch++
 			if resultKey(a) == resultKey(d) {
@@ -455,6 +461,14 @@ func (c *Checker) determinismSpot(p runPlan, n int) error {
 		}
 	}
 	return nil
+}
+
+func extHandoffs(rr *RunResult) float64 {
+	if rr == nil || rr.End == nil {
+		return 0
+	}
+	v, _ := rr.End["ext_handoffs"].(float64)
+	return v
 }
 
 // resultKey is the journal without schedule information: operations and their results.
